@@ -1630,6 +1630,22 @@ impl<Front: SocketHandler + std::fmt::Debug, L: ListenerHandler + L7ListenerHand
                 .backend_streams
                 .get(&token)
                 .map_or_else(Vec::new, |ids| ids.to_owned());
+            if linked_ids.is_empty() {
+                // An idle pooled connection timed out (an HTTP/2 backend connection
+                // keeps its timer armed between streams). That says nothing about
+                // the requests in flight on the other backend connections of this
+                // session: they have their own timers. Closing the session here
+                // would cut them without an answer.
+                let others_in_flight = self.context.streams.iter().any(|stream| match stream.state {
+                    StreamState::Link | StreamState::Linked(_) => true,
+                    StreamState::Unlinked => !stream.back.is_completed(),
+                    StreamState::Idle | StreamState::Recycle => false,
+                });
+                if others_in_flight {
+                    backend.timeout_container().set(token);
+                    return StateResult::Continue;
+                }
+            }
             for stream_id in linked_ids {
                 // This stream is linked to the backend that timedout
                 if self.context.streams[stream_id].back.is_terminated()
